@@ -105,8 +105,8 @@ CHECKS = {
     "C02": dict(
         level="model_checking",
         clauses=GEN_CLAUSES_SPEC,
-        phases=dict(quick=[dict(kind="proofs", canary=False), dict(kind="verbnames"), dict(kind="argspace", verbs=["slices"]), dict(kind="argspace", verbs=["arrange"], amax=2), dict(profile="core2"), dict(profile="imm3", opts=dict(pool=True)), dict(profile="subq4"), dict(profile="wins3"), dict(profile="tall2")],
-                    thorough=[dict(profile="subq5"), dict(kind="argspace", verbs=["slices"], ns=[0, 1, 2, 3, 6], ks=[0, 1, 2, 4, 7], sizes=[0, 1, 4, 6]), dict(kind="argspace", verbs=["arrange"], amax=3), dict(kind="proofs", canary=False), dict(kind="verbnames", cols=["a", "b", "c", "x"], keys=["a", "b", "c", "x", "z"], vals=["a", "b", "c", "x", "y"]), dict(profile="core2"), dict(profile="core3"), dict(profile="imm4", opts=dict(pool=True)), dict(profile="wins4"), dict(profile="tall2"), dict(profile="reroot3")]),
+        phases=dict(quick=[dict(kind="proofs", canary=False), dict(kind="verbnames"), dict(kind="argspace", verbs=["slices"]), dict(kind="argspace", verbs=["arrange", "mutate"], amax=2), dict(profile="core2"), dict(profile="imm3", opts=dict(pool=True)), dict(profile="subq4"), dict(profile="wins3"), dict(profile="tall2")],
+                    thorough=[dict(profile="subq5"), dict(kind="argspace", verbs=["slices"], ns=[0, 1, 2, 3, 6], ks=[0, 1, 2, 4, 7], sizes=[0, 1, 4, 6]), dict(kind="argspace", verbs=["arrange", "mutate"], amax=3), dict(kind="proofs", canary=False), dict(kind="verbnames", cols=["a", "b", "c", "x"], keys=["a", "b", "c", "x", "z"], vals=["a", "b", "c", "x", "y"]), dict(profile="core2"), dict(profile="core3"), dict(profile="imm4", opts=dict(pool=True)), dict(profile="wins4"), dict(profile="tall2"), dict(profile="reroot3")]),
     ),
     "C03": dict(
         level="model_checking",
